@@ -1,6 +1,6 @@
 PROPERTY = 'C23'
 LEVEL = 'proof'
-VERUS = ['verus/C23.rs', 'verus/C23_execute.rs']
+VERUS = ['verus/C23.rs', 'verus/C23_execute.rs', 'verus/C23_close.rs']
 TRUSTED = [
     'Verus 0.2026.09.13 + bundled Z3; vstd',
     'carrier Pubkey{hi, lo: u128} (faithful 32-byte value, structural equality); carrier ActionHeader{action_state, owner, id} (full field list of the repo struct compared on every run, R11); enum ActionState transcribed (variant list compared each run)',
@@ -16,8 +16,8 @@ UNVERIFIED = [
 ]
 ASSUMPTIONS = []
 MANIFEST = dict(engine='verus',
-    technique='(executors: Verus contracts on unchecked_execute_deposit / _withdrawal / _shift as whole handlers with a ghost trace of steps) Verus contracts on ActionState::{completed, cancelled, is_pending, is_completed_or_cancelled}, ActionHeader::{action_state, set_action_state, completed, cancelled} and the trait-default method Close::preprocess, extracted from /repo each run',
-    text='Executors (deposit, withdrawal, shift): a successful run takes the tokens in, runs the operation and then marks the action COMPLETED exactly when the operation went through (a withdrawal then pays out the returned amounts), or marks it CANCELLED and sends the escrowed tokens back exactly when it failed softly - never both, never neither - and settles the execution fee last; it can only start from a pending action. Deductive proof, unbounded over all header states (every u8 state code) and callers: completed()/cancelled() succeed exactly from Pending, move to Completed/Cancelled, and fail without any change from a terminal or corrupt state (a terminal state is never left; each action completes or cancels at most once); Close::preprocess returns true only for the owner, and lets a non-owner proceed only with the keeper role and -- unless the action type opts out -- only for completed or cancelled actions, so a pending action can be closed only by its owner. Escrow-return clauses are not covered (listed).',
+    technique='(executors: Verus contracts on unchecked_execute_deposit / _withdrawal / _shift as whole handlers with a ghost trace of steps; close: the trait-default handler Close::close as a whole unit over the contract of preprocess, with a ghost trace) Verus contracts on ActionState::{completed, cancelled, is_pending, is_completed_or_cancelled}, ActionHeader::{action_state, set_action_state, completed, cancelled} and the trait-default method Close::preprocess, extracted from /repo each run',
+    text='Close handler: nothing is refunded, emitted or closed unless the accounts validated and the caller passed the close gate (owner, or keeper on a terminal action); `process` is told who is calling; the action account is closed - after the closed event, once - exactly when `process` completed. Executors (deposit, withdrawal, shift): a successful run takes the tokens in, runs the operation and then marks the action COMPLETED exactly when the operation went through (a withdrawal then pays out the returned amounts), or marks it CANCELLED and sends the escrowed tokens back exactly when it failed softly - never both, never neither - and settles the execution fee last; it can only start from a pending action. Deductive proof, unbounded over all header states (every u8 state code) and callers: completed()/cancelled() succeed exactly from Pending, move to Completed/Cancelled, and fail without any change from a terminal or corrupt state (a terminal state is never left; each action completes or cancels at most once); Close::preprocess returns true only for the owner, and lets a non-owner proceed only with the keeper role and -- unless the action type opts out -- only for completed or cancelled actions, so a pending action can be closed only by its owner. Escrow-return clauses are not covered (listed).',
     note='Trusted: Verus+Z3, carriers, num_enum glue. Escrow flows and execute_* wiring are listed as unverified.')
 
 
@@ -43,9 +43,7 @@ FALLBACK_OBS = ['C23.ActionState.completed']
 
 def extra(res, repo, tier, seed):
     import os, re, subprocess
-    s = open(os.path.join(repo, 'programs/store/src/utils/internal/action.rs')).read()
-    if not re.search(r'let is_caller_owner = accounts\.preprocess\(\)\?;', s):
-        res.undecided.append('anchor lost: Close::close no longer starts with `accounts.validate()?; let is_caller_owner = accounts.preprocess()?;`')
+    # the anchor on Close::close is gone: the whole trait-default method is a unit (verus/C23_close.rs)
     # which Close impls opt out of the terminal-state check
     hits = []
     root = os.path.join(repo, 'programs/store/src')
